@@ -117,7 +117,8 @@ class HsRun:
             return np.isin(v, SUPPORTED)
         if nm == "self.parse_handshake":
             return self.parse_result
-        if nm in self.closures and len(c.args) == 2:  # the reply-writing helper closure (decided separately: octet = a << 4 | b & 15)
+        if (nm in self.closures or (nm.startswith("self._") and nm[5:] in getattr(self, "reply_helpers", ()))) and len(c.args) == 2:
+            # the reply-writing helper (closure or private method; decided separately: octet = a << 4 | b & 15)
             a = [vec.arr(vec.eval(x, mask)) for x in c.args]
             self.writes.append((("response", a[0], a[1]), mask.copy()))
             return None
@@ -141,13 +142,51 @@ def _octets_tw():
     return d
 
 
-def rule_handshake_tables(ctx):
-    ctx.rule("C13.1-rawsocket-handshake-decision-table")
+def _octetwise(fn):
+    """`X[a:b] == b"..."` / `!=` over a slice of known width is the conjunction / disjunction of the per-octet comparisons `ord(X[i:i+1]) == k`"""
+    import copy
+    from ..core.index import FuncInfo
+    changed = []
+
+    class T(ast.NodeTransformer):
+        def visit_Compare(self, node):
+            node = self.generic_visit(node)
+            if len(node.ops) == 1 and isinstance(node.ops[0], (ast.Eq, ast.NotEq)) and isinstance(node.left, ast.Subscript) and isinstance(node.left.slice, ast.Slice) \
+                    and isinstance(node.comparators[0], ast.Constant) and isinstance(node.comparators[0].value, bytes):
+                sl = node.left.slice
+                lo = sl.lower.value if isinstance(sl.lower, ast.Constant) else (0 if sl.lower is None else None)
+                hi = sl.upper.value if isinstance(sl.upper, ast.Constant) else None
+                k = node.comparators[0].value
+                if lo is not None and hi is not None and sl.step is None and hi - lo == len(k) and len(k) >= 1:
+                    parts = []
+                    for i, octet in enumerate(k):
+                        one = ast.Subscript(value=copy.deepcopy(node.left.value), slice=ast.Slice(lower=ast.Constant(lo + i), upper=ast.Constant(lo + i + 1), step=None), ctx=ast.Load())
+                        parts.append(ast.Compare(left=ast.Call(func=ast.Name(id="ord", ctx=ast.Load()), args=[one], keywords=[]), ops=[copy.deepcopy(node.ops[0])],
+                                                 comparators=[ast.Constant(octet)]))
+                    new = parts[0] if len(parts) == 1 else ast.BoolOp(op=ast.And() if isinstance(node.ops[0], ast.Eq) else ast.Or(), values=parts)
+                    for x in ast.walk(new):
+                        ast.copy_location(x, node)
+                    changed.append(1)
+                    return new
+            return node
+    new = T().visit(copy.deepcopy(fn.node))
+    if not changed:
+        return fn
+    ast.fix_missing_locations(new)
+    out = FuncInfo(fn.module, fn.cls, new, parent=fn.parent)
+    out.variant = (getattr(fn, "variant", "") + "+octetwise").lstrip("+")
+    return out
+
+
+def rule_handshake_tables(ctx, rule_id="C13.1-rawsocket-handshake-decision-table"):
+    ctx.rule(rule_id)
     an = get_analysis(ctx)
     # ---- Twisted server / client -------------------------------------------------------------
     for cls, role in (("WampRawSocketServerProtocol", "server"), ("WampRawSocketClientProtocol", "client")):
         fn = ctx.program.func(f"{TW}.{cls}.dataReceived")
         ctx.analysed(fn)
+        from .common import expand_expr_helpers
+        fn = _octetwise(expand_expr_helpers(ctx, fn))   # private expression helpers read in place; slice comparisons read octet by octet
         blocks = [s for s in walk_no_defs(fn.node) if isinstance(s, ast.If) and norm.text(s.test) == "len(self._handshake_bytes) == 4"]
         ctx.require(len(blocks) == 1, f"{cls}.dataReceived: handshake block not found")
         run = HsRun(ctx, fn, role, _octets_tw(), ((0, 0), (1, 0), (0, 255)))
@@ -190,7 +229,7 @@ def rule_handshake_tables(ctx):
                         probs.append(f"{cell}: {again} re-processed although nothing lies behind the handshake")
             ctx.ob(f"twisted {role}: handshake octets accumulated across reads, judged when complete, remainder re-processed [28 cells]", not probs, "; ".join(probs[:2]), fn.loc())
         except AnalysisError as e:
-            raise AnalysisError(f"[C13.1-rawsocket-handshake-decision-table] {cls}.dataReceived outside the modelled subset: {e}")
+            raise AnalysisError(f"[{ctx.cur_rule}] {cls}.dataReceived outside the modelled subset: {e}")
     # ---- asyncio ---------------------------------------------------------------------------------
     ph = ctx.program.func(f"{AIO}.RawSocketProtocol.parse_handshake")
     ctx.analysed(ph)
@@ -215,14 +254,27 @@ def rule_handshake_tables(ctx):
         stm = [s for s in pf.node.body if not isinstance(s, ast.FunctionDef)]
         # send_response closure: b2 = lexp << 4 | (ser_id & 0x0F)
         clos = [s for s in pf.node.body if isinstance(s, ast.FunctionDef)]
+        cfi = None
+        if clos:
+            cfi = [x for x in pf.nested_list() if x.node is clos[0]][0]
+        else:
+            # the same helper as a private method of the class: called from process_handshake with two arguments, writes one 4-octet list
+            for c_ in calls_in(pf.node):
+                if self_call(c_) and c_.func.attr.startswith("_") and len(c_.args) == 2:
+                    h_ = ctx.program.lookup_method(pf.cls, c_.func.attr)
+                    if h_ is not None and any(norm.text(w_.func) == "self.transport.write" for w_ in calls_in(h_.node)):
+                        cfi = h_
+                        clos = [h_.node]
+                        run2.reply_helpers = {c_.func.attr}
+                        break
         if clos:
             from .common import eval_finite
-            cfi = [x for x in pf.nested_list() if x.node is clos[0]][0]
             wr = [c for c in calls_in(clos[0]) if norm.text(c.func) == "self.transport.write"]
             lists = [x for c in wr for x in ast.walk(c) if isinstance(x, ast.List) and len(x.elts) == 4]
             okr, why = False, "reply layout changed"
-            if len(wr) == 1 and len(lists) == 1 and len(cfi.params()) == 2:
-                p0, p1 = cfi.params()
+            prm_ = [x_ for x_ in cfi.params() if x_ != "self"]
+            if len(wr) == 1 and len(lists) == 1 and len(prm_) == 2:
+                p0, p1 = prm_
                 A0, A1 = np.meshgrid(np.arange(16), np.arange(256), indexing="ij")
                 A0, A1 = A0.ravel(), A1.ravel()
                 try:
@@ -601,6 +653,10 @@ def _rule_limits_receive(ctx, an):
                 env = {"self": Sym("protocol"), "self._buffer": _fp(b""), "self._header": None, "self.prefix_length": 4, "self.prefix_format": "!L", "self.max_length": 2 ** 24,
                        "self.log": Sym("log")}
                 env.update(consts)
+                from .c07_cells import _method_env as _menv
+                _menv(ctx, pp.cls, pp, env)
+                for k_ in ("self.stringReceived", "self.ping", "self.pong", "self.protocol_error"):
+                    env.pop(k_, None)   # observed through the oracle
                 from .common import inline_private as _ip
                 tn = Tiny(env, default_call=orc, model_strings=True, model_types=True, opaque_globals=True,
                           inline_self=_ip(ctx, pp.cls, exclude=("_on_handshake_complete",)))
